@@ -44,6 +44,8 @@ type FuncContract struct {
 	Trusted  bool
 	Inline   bool
 	Opaque   bool // never inline even when small
+	CalleeEns map[string][]*Clause // `callee NAME ensures e`: an extra postcondition assumed for calls to NAME made by this function (local refinement of a library summary; listed as an assumption)
+	CalleeAsg map[string][]string  // `callee NAME assigns ghost.x, ...`
 	Abstract map[string]bool // callees (unqualified names) whose postconditions are NOT used when verifying this function (keeps heavy spec functions out of its VCs; dropping assumptions is sound)
 	Sticky   bool // single-result method: once non-nil/true for a receiver, it stays so (e.g. context.Context.Err)
 	Effects  []string
@@ -53,6 +55,7 @@ type FuncContract struct {
 	Reach    []*ReachClause
 	Sends    []*Clause // condition every value sent on a channel must satisfy (over `sent`)
 	used     bool
+	merged   bool // this block's clauses were added to another block for the same function: not verified on its own
 }
 
 // ReachClause: the statement with the given source text may be reached only
@@ -109,7 +112,7 @@ var clauseKeywords = map[string]bool{
 	"func": true, "spec": true, "ghost": true, "lemma": true, "axiom": true,
 	"requires": true, "ensures": true, "assumes": true, "loop": true, "callback": true, "nopanic": true,
 	"assigns": true, "effects": true, "calls": true, "pure": true,
-	"trusted": true, "inline": true, "reach": true, "sends": true, "opaque": true, "sticky": true, "abstract": true, "crash_invariant": true, "results": true,
+	"trusted": true, "inline": true, "reach": true, "sends": true, "opaque": true, "sticky": true, "abstract": true, "callee": true, "crash_invariant": true, "results": true,
 }
 
 var tagRe = regexp.MustCompile(`^([a-z_]+)\[([A-Za-z0-9_,\- ]+)\]`)
@@ -436,6 +439,35 @@ func parseContractFile(path, pkgPath string) (*ContractFile, error) {
 				return nil, err
 			}
 			cur.Sticky = true
+		case "callee":
+			if err := needCur(); err != nil {
+				return nil, err
+			}
+			fs := strings.Fields(rest)
+			if len(fs) < 3 || (fs[1] != "ensures" && fs[1] != "assigns") {
+				return nil, fmt.Errorf("%s:%d: callee NAME ensures EXPR | callee NAME assigns LIST", path, rl.line)
+			}
+			body := strings.TrimSpace(strings.TrimPrefix(strings.TrimSpace(strings.TrimPrefix(rest, fs[0])), fs[1]))
+			if fs[1] == "ensures" {
+				c, err := mk("ensures", body)
+				if err != nil {
+					return nil, err
+				}
+				c.Assumed = true
+				if cur.CalleeEns == nil {
+					cur.CalleeEns = map[string][]*Clause{}
+				}
+				cur.CalleeEns[fs[0]] = append(cur.CalleeEns[fs[0]], c)
+			} else {
+				if cur.CalleeAsg == nil {
+					cur.CalleeAsg = map[string][]string{}
+				}
+				for _, a := range strings.Split(body, ",") {
+					if a = strings.TrimSpace(a); a != "" {
+						cur.CalleeAsg[fs[0]] = append(cur.CalleeAsg[fs[0]], a)
+					}
+				}
+			}
 		case "abstract":
 			if err := needCur(); err != nil {
 				return nil, err
